@@ -208,8 +208,10 @@ def _add_hidden_metadata(note: Note) -> Note:
 
     if extra_tags != "":
         assert new_note.zid is not None
+        # Only the note's own ZID (the first one) gets the hidden metadata; the
+        # body may mention that ZID again (e.g. a link to the note itself).
         new_note.body = new_note.body.replace(
-            new_note.zid, f"{new_note.zid}{extra_tags}"
+            new_note.zid, f"{new_note.zid}{extra_tags}", 1
         )
     return new_note
 
